@@ -182,6 +182,17 @@ def make_world(fs):
         def mkdir(self, parents=False, exist_ok=False):
             fs.dirs.add(self.s)
 
+        def touch(self, mode=0o666, exist_ok=True):
+            # creates an EMPTY (unloadable) file if there is none
+            if self.s in fs.files:
+                if not exist_ok:
+                    raise FileExistsError(self.s)
+                return
+            fs.log.append("touch %s" % self.s)
+            f = fs.new_file(self.s)
+            f.broken = True
+            f.touched = True
+
         def unlink(self, missing_ok=False):
             if self.s not in fs.files:
                 if missing_ok:
